@@ -112,6 +112,11 @@ fn source_url(third: bool, source_host: &Option<String>) -> String {
 
 fn grid() -> Vec<(String, String, bool, Option<String>)> {
     let mut v = vec![];
+    // third-party sources whose name merely ENDS with the target's registrable domain
+    for t in ["script", "image", "document"] {
+        v.push((t.to_string(), "https".to_string(), true, Some("nottarget-site.com".to_string())));
+        v.push((t.to_string(), "http".to_string(), true, Some("www.xtarget-site.com".to_string())));
+    }
     for (t, s) in [("script", "HTTPS"), ("image", "Http"), ("other", "WSS"), ("websocket", "Ws"), ("document", "hTTps"), ("xhr", "FTP")] {
         v.push((t.to_string(), s.to_string(), false, Some("other.target-site.com".to_string())));
         v.push((t.to_string(), s.to_string(), true, Some("unrelated.org".to_string())));
@@ -173,7 +178,7 @@ pub fn check_case(c: &OptCase, obs: &mut Obs) -> Result<(), String> {
         };
         let want_rule = pattern_can_match && c.ast.applies(&facts);
         if req.is_third_party != *third {
-            return Err(format!("harness self-check: request {} from {} expected third_party={} got {}", url, src, third, req.is_third_party));
+            return Err(format!("request {} from {:?}: the party options cannot be decided correctly because the request is classified third_party={} although by construction (registrable domains) it is {}", url, src, req.is_third_party, third));
         }
         if supported {
             let got = rule_matches(&f, &req);
